@@ -29,13 +29,17 @@ ASSUMPTIONS = ['ascending key order = Python str order (code points), which '
 
 KEYS5 = ['', 'B', 'a', 'aa', 'é']
 KEYS6 = KEYS5 + ['a\x00']
+# code-point order is not UTF-16 code-unit order: U+10000 (D800 DC00 in
+# UTF-16) sorts after U+E000 and U+FFFF, not before them
+KEYS_WIDE = ['\uffff', '\U00010000', '\ue000', '\U0010ffff', 'z']
 VALS = [1, 'x', True, None, -129, 1.5]
 SELFTEST_TASK = ('perm', 0)
 
 
 def tasks(tier, seed):
     nkeys = 6 if tier == 'thorough' else 5
-    out = [('perm', i) for i in range(nkeys)] + [('subsets',), ('long',), ('twins',), ('unordered',), ('hashseeds',)]
+    out = [('perm', i) for i in range(nkeys)] + \
+        [('perm', i, 'wide') for i in range(len(KEYS_WIDE))] + [('subsets',), ('long',), ('twins',), ('unordered',), ('hashseeds',)]
     if tier == 'thorough':
         out += [('m',) + t for t in corpus.method_tasks(tier)]
     else:
@@ -454,6 +458,8 @@ def run(task, ctx):
     kind = task[0]
     if kind == 'perm':
         keys = KEYS6 if ctx.tier == 'thorough' else KEYS5
+        if len(task) > 2:
+            keys = KEYS_WIDE
         check_orders(ctx, keys, task[1])
     elif kind == 'subsets':
         check_subsets(ctx)
